@@ -281,6 +281,16 @@ def check_heap(rep, repo: Repo, pre: str = "") -> None:
             t = t[2]  # the same as a conditional expression
         if name == "dad":
             inner = strip_int(t)
+            # the truncating quotient spelt in integers: `n // 2 if n >= 0 else -(-n // 2)` is int(n / 2); for the positions the
+            # sifts ask about (n = i - 1 >= 0) it is n // 2
+            if inner[0] == "sel" and inner[1][0] == "cmp" and inner[1][1] in ("<=", "<"):
+                c0 = inner[1]
+                nn = c0[3] if c0[2] in (("const", 0), ("const", -1)) else None
+                if nn is not None and inner[2] == ("bin", "//", nn, ("const", 2)) and inner[3] in (
+                        ("neg", ("bin", "//", ("neg", nn), ("const", 2))),
+                        ("bin", "-", ("const", 0), ("bin", "//", ("neg", nn), ("const", 2)))) \
+                        and (c0 == ("cmp", "<=", ("const", 0), nn) or c0 == ("cmp", "<", ("const", -1), nn)):
+                    inner = inner[2]
             ok = False
             if inner[0] == "bin" and inner[1] in ("/", "//") and inner[3] == ("const", 2):
                 ok = lin_eq(lin(inner[2]), {prm: 1, 1: -1}) and (inner[1] == "//" or t != inner)
@@ -827,6 +837,15 @@ def check_heap(rep, repo: Repo, pre: str = "") -> None:
                      if not (arg_only(g) and any(x.guards and x.guards[-1] == (g, not pol) for x in exits)))
 
     w = W["update"]
+    for e in w.events:
+        if e.kind == "call" and e.name in ("insert", "remove", "go_up", "go_down") and e.target == ("attr", SELF, e.name):
+            callee = repo.method("Heap", e.name)
+            from .ir import api_signature
+            known = api_signature(callee) if callee is not None else None
+            n_known = len([x for x in (known or []) if x != "self"])
+            if known is not None and (len(e.args) > n_known or any(k not in known for k, _ in (e.kwargs or ()))):
+                raise AnalysisError(f"Heap.update: `{e.text()[:50]}` passes an argument the documented {e.name}() does not have; what "
+                                    "the extended call does with it is new behaviour the queue rules cannot follow - outside the analysable fragment")
     pup, cup = ("param", w.entry.params[1]), ("param", w.entry.params[2])
     cs = [e for e in w.events if e.kind == "store" and e.target == ("idx", COST, pup) and e.value == cup
           and not own(w, e.guards)]
